@@ -2081,6 +2081,7 @@ Section Scr.
       + apply IT_enq_other; discriminate.
       + apply IT_connect. cbn [scmd_wf] in WF. apply Nat.ltb_lt, WF.
       + apply IT_emit_custom.
+      + apply IT_rec. exact I.                     (* process_signals() from a callback: the loop re-entered, as in wait_on_input *)
       + apply IT_get_input_blocking.
       + apply IT_wr_typeahead.
       + apply IT_handler_ask. cbn [scmd_wf] in WF. destruct fresh; [discriminate WF|reflexivity].
